@@ -2,13 +2,13 @@ package c05
 
 // Round C: a call that QUEUES for the output lock behind a call that stops inside its element.
 //
-//	behind <mode> <k> <holder toks> <entry> <ns> <from> <start|-> <toks>  ->  <s1> <s2> <wire>
+//	behind <mode> <park> <k> <holder toks> <entry> <ns> <from> <start|-> <toks>  ->  <s1> <s2> <wire>
 //
-// The holder is a Send whose token reader parks after it has delivered k tokens of its element
-// (0 < k < len).  While it is parked - it holds the output lock, the encoder is inside the
-// element - the second call (any entry point) is started and the harness waits until that
-// goroutine is blocked in sync.(*Mutex).Lock.  Then the holder's reader fails (mode `fail`) or
-// delivers the rest (mode `finish`).  A call that asked "is the stream inside an unfinished
+// The holder is a Send whose token reader parks after it has delivered `park` tokens of its
+// element (0 <= park <= k; park = 0: the lock is held, nothing has been written yet).  While it
+// is parked the second call (any entry point) is started and the harness waits until that
+// goroutine is blocked in sync.(*Mutex).Lock.  Then the holder goes on and its reader fails
+// after k tokens (mode `fail`, 0 < k < len) or delivers all of them (mode `finish`, k = len).  A call that asked "is the stream inside an unfinished
 // element?" BEFORE it queued acts on a stale answer: after `fail` it writes its element inside
 // the unfinished one and reports success, during `finish` it is refused although nothing is
 // broken.  The model (SendGuard LTS, guard under the lock) says: fail -> refused, nothing
@@ -29,6 +29,8 @@ import (
 type parkReader struct {
 	t       []xml.Token
 	i, k    int
+	park    int
+	parked  bool
 	fail    bool
 	reached chan struct{}
 	gate    chan struct{}
@@ -37,15 +39,16 @@ type parkReader struct {
 var errParked = errors.New("c05: the payload reader failed")
 
 func (g *parkReader) Token() (xml.Token, error) {
-	if g.i == g.k {
+	if g.i == g.park && !g.parked {
+		g.parked = true
 		select {
 		case g.reached <- struct{}{}:
 		default:
 		}
 		<-g.gate
-		if g.fail {
-			return nil, errParked
-		}
+	}
+	if g.fail && g.i == g.k {
+		return nil, errParked
 	}
 	if g.i >= len(g.t) {
 		return nil, errEOF
@@ -88,22 +91,25 @@ func behindCall(entry string, next []xml.Token) (call, bool) {
 	return call{}, false
 }
 
-func (c *ctxT) behind(cfg cfgT, mode string, k int, toks []xml.Token, cl call) {
+func (c *ctxT) behind(cfg cfgT, mode string, park, k int, toks []xml.Token, cl call) {
 	r := c.r
-	if c.stalls >= 3 || k <= 0 || k >= len(toks) {
+	if mode != "fail" {
+		k = len(toks)
+	}
+	if c.stalls >= 3 || k <= 0 || (mode == "fail" && k >= len(toks)) || park < 0 || park > k || park >= len(toks) {
 		return
 	}
 	startF := "-"
 	if cl.start != nil {
 		startF = common.EncToks([]xml.Token{*cl.start})
 	}
-	line := fmt.Sprintf("behind %s %d %s %s %s %s %s %s", mode, k, common.EncToks(toks), cl.entry, cfg.ns, cfg.fromField(), startF, common.EncToks(cl.toks))
+	line := fmt.Sprintf("behind %s %d %d %s %s %s %s %s %s", mode, park, k, common.EncToks(toks), cl.entry, cfg.ns, cfg.fromField(), startF, common.EncToks(cl.toks))
 	lines := []string{r.Prop + " " + line}
 	rs, err := newSess(cfg)
 	if err != nil {
 		return
 	}
-	pr := &parkReader{t: toks, k: k, fail: mode == "fail", reached: make(chan struct{}, 1), gate: make(chan struct{})}
+	pr := &parkReader{t: toks, k: k, park: park, fail: mode == "fail", reached: make(chan struct{}, 1), gate: make(chan struct{})}
 	var err1 error
 	var p1 string
 	done1 := make(chan struct{})
@@ -117,7 +123,7 @@ func (c *ctxT) behind(cfg cfgT, mode string, k int, toks []xml.Token, cl call) {
 		close(pr.gate)
 		c.stalls++
 		r.Line(line, "STALL")
-		r.Fail("lock-released", "behind/holder", lines, "the first Send did not reach token "+fmt.Sprint(k)+" of its element")
+		r.Fail("lock-released", "behind/holder", lines, "the first Send did not reach token "+fmt.Sprint(park)+" of its element")
 		return
 	}
 	// the second call: it has to queue behind the holder
@@ -200,11 +206,11 @@ wait:
 			}
 		}
 		if !okEl {
-			what := "stopped after"
+			what := "abandoned after"
 			if st1 == "ok" {
-				what = "was parked after"
+				what = "completed,"
 			}
-			r.Fail("next-after-failure", "behind/"+mode+"/"+cl.entry, lines, fmt.Sprintf("a %s call queued for the output lock while a Send %s %d tokens of its element (first call: %s); it returned nil but its element is not a complete top-level element on the wire: %q", cl.entry, what, k, st1, clip(wire)))
+			r.Fail("next-after-failure", "behind/"+mode+"/"+cl.entry, lines, fmt.Sprintf("a %s call queued for the output lock while a Send was parked after %d tokens of its element, which it then %s %d tokens (first call: %s); it returned nil but its element is not a complete top-level element on the wire: %q", cl.entry, park, what, k, st1, clip(wire)))
 		}
 	}
 }
@@ -220,8 +226,14 @@ func (c *ctxT) behindCorpus(cfg cfgT) {
 			continue
 		}
 		for k := 1; k < len(msg); k++ {
-			c.behind(cfg, "fail", k, msg, cl)
-			c.behind(cfg, "finish", k, msg, cl)
+			for _, park := range []int{0, k / 2, k} {
+				if park == k/2 && (park == 0 || park == k) {
+					continue
+				}
+				c.behind(cfg, "fail", park, k, msg, cl)
+			}
+			c.behind(cfg, "finish", k, len(msg), msg, cl)
 		}
+		c.behind(cfg, "finish", 0, len(msg), msg, cl)
 	}
 }
